@@ -177,10 +177,11 @@ func (e *c11Env) pre_(op *base.VerifOp, actor string) base.VerifDecision {
 			e.casRetryFor = op.N
 			return base.VerifDecision{}
 		}
-		if op.CasIn == 0 {
+		if op.CasIn == 0 && op.Kind != "Add" && op.Kind != "AddRaw" {
 			e.injected = "" // the caller did not ask for a CAS comparison: a mismatch cannot happen here
 			return base.VerifDecision{}
 		}
+		// (insert-only operations can fail with the same error class: "key exists" is reported as a CAS-class error)
 		return base.VerifDecision{Action: base.VerifFailBefore, Err: verifCasMismatch()}
 	case "timeout-applied":
 		return base.VerifDecision{Action: base.VerifFailAfter, Err: base.ErrTimeout}
@@ -190,6 +191,8 @@ func (e *c11Env) pre_(op *base.VerifOp, actor string) base.VerifDecision {
 
 func c11TakesCas(kind string) bool {
 	switch kind {
+	case "Add", "AddRaw":
+		return true
 	case "WriteCas", "WriteUpdateWithXattrs", "WriteWithXattrs", "Remove", "UpdateXattrs", "WriteTombstoneWithXattrs", "Update", "SubdocInsert", "WriteSubDoc", "RemoveXattrs":
 		return true
 	}
@@ -510,6 +513,26 @@ func c11Requests() []c11Request {
 					return sid != "" && r.Code == 200, fmt.Sprintf("GET _session/%s -> %d", sid, r.Code)
 				}}}
 		}},
+		{Name: "session-delete-user-scoped-for-disabled-user", Prepare: func(e *c11Env, n int) (func() *TestResponse, func() string, []c11Claim) {
+			user := fmt.Sprintf("c11u%d", n)
+			e.mustAdmin("PUT", "/{{.db}}/_user/"+user, `{"password":"letmein","admin_channels":["A"]}`, 201)
+			r := e.mustAdmin("POST", "/{{.db}}/_session", `{"name":"`+user+`","ttl":600}`, 200)
+			var s struct {
+				ID string `json:"session_id"`
+			}
+			_ = json.Unmarshal(r.Body.Bytes(), &s)
+			e.mustAdmin("PUT", "/{{.db}}/_user/"+user, `{"disabled":true}`, 200)
+			sessionDocExists := func() bool {
+				a := e.rt.GetDatabase().Authenticator(e.rt.Context())
+				ok, _ := e.rawDS(e.rt.GetDatabase().MetadataStore.GetName()).Exists(context.Background(), a.DocIDForSession(s.ID))
+				return ok
+			}
+			return func() *TestResponse { return e.admin("DELETE", "/{{.db}}/_user/"+user+"/_session/"+s.ID, "") },
+				func() string { return fmt.Sprintf("session document exists: %v", sessionDocExists()) },
+				[]c11Claim{{What: "a session delete reported successful removed the session (it must not work again when the user is re-enabled)", Chk: func() (bool, string) {
+					return !sessionDocExists(), fmt.Sprintf("session document still exists: %v", sessionDocExists())
+				}}}
+		}},
 		{Name: "session-delete", Prepare: func(e *c11Env, n int) (func() *TestResponse, func() string, []c11Claim) {
 			user := fmt.Sprintf("c11u%d", n)
 			e.mustAdmin("PUT", "/{{.db}}/_user/"+user, `{"password":"letmein","admin_channels":["A"]}`, 201)
@@ -607,6 +630,12 @@ func TestVerif_C11_Faults(t *testing.T) {
 			} else {
 				e.checkUnchanged(rq.Name, "none", before, observe(), pre, witness(nil))
 			}
+			run.Nontrivial(rq.Name + "/zero-fault")
+			continue
+		}
+		if !ok && rq.Name == "session-delete-user-scoped-for-disabled-user" {
+			// refusing is fine (the session of a disabled user is reported as not found); nothing may have changed
+			e.checkUnchanged(rq.Name, "none", before, observe(), pre, witness(nil))
 			run.Nontrivial(rq.Name + "/zero-fault")
 			continue
 		}
